@@ -306,8 +306,18 @@ def filepost_obs():
                note='check / fix, every flag word of the file, excluded / unsynced, last block or not, every block state, what the handle holds, every inode collision (none, same name, another file with any size / stamp), every outcome of close / rename / open / utime')]
 
 
+REPAIR_OUTCOME = dict(region='repair_outcome', file='cmdline/check.c', begin='/* try all the recovering strategies */', end='/* now write recovered files */', max_lines=80, expect_loops=4, brace_balance=1,
+                      proto='static void region_repair_outcome(struct snapraid_state *state, int rehash, block_off_t i, unsigned diskmax, struct failed_struct *failed, unsigned *failed_map, unsigned failed_count, void **buffer, void **buffer_recov, void *buffer_zero, int used_parity, int valid_parity, unsigned *error_p, unsigned *unrecoverable_p)',
+                      prologue='\tunsigned j, l;\n\tint ret;\n\tchar esc_buffer[ESC_MAX];\n\tunsigned error = *error_p, unrecoverable_error = *unrecoverable_p;',
+                      epilogue='\t} /* closes the else branch the region text opened */\n\t*error_p = error; *unrecoverable_p = unrecoverable_error;\n\t(void)esc_buffer;')
+
+
 def writeback_obs():
-    return [Ob('check.writeback.region', 'harness/h_writeback.c', 'h_writeback', inject=[WRITEBACK], unwind=12, small_path=True, timeout=1200, mem=8, cost=10, replay=False, kind='bounded',
+    return [Ob('check.repair_outcome.region', 'harness/h_writeback.c', 'h_repair_outcome', inject=[WRITEBACK, REPAIR_OUTCOME], unwind=12, small_path=True, timeout=1200, mem=8, cost=8, replay=False, kind='bounded',
+               bound='at most 3 failed entries per stripe, 1..6 parity levels, block size 8',
+               functions=['state_check_process: region "try all the recovering strategies" .. "now write recovered files" (cmdline/check.c, extracted mechanically)'],
+               note='every result of repair, bad / out-of-date pattern, recomputed and on-disk parity content, readable levels, used / valid parity; repair by stub (its own units)'),
+            Ob('check.writeback.region', 'harness/h_writeback.c', 'h_writeback', inject=[WRITEBACK, REPAIR_OUTCOME], unwind=12, small_path=True, timeout=1200, mem=8, cost=10, replay=False, kind='bounded',
                bound='at most 3 failed entries per stripe, 1..6 parity levels',
                functions=['state_check_process: region "now write recovered files" (cmdline/check.c, extracted mechanically)'],
                note='check and fix, every bad / out-of-date / excluded / unsynced combination per entry, every disk slot and file position, every write outcome, every readability / accessibility / exclusion per parity level; handle_write / parity_write by recording stub')]
